@@ -25,7 +25,8 @@ def run(c):
         if c.replay:
             import json
             rp = json.load(open(c.replay))
-            if (rp.get("engine") or "") not in ("", sub):
+            eng = (rp.get("engine") or "").replace("-search", "")
+            if eng not in ("", sub) or not isinstance(rp.get("case"), dict):
                 continue
             out = c.harness("hs", [sub, "-replay", c.replay])
         else:
